@@ -106,6 +106,9 @@ class Interp:
         self.max_depth = max_depth
         self.max_states = max_states
         self.obligations = []     # (func name, block, kind, op, ok, detail)
+        self.definite = set()     # (func name, block) of obligations that fail on exact operand values (not for lack of knowledge)
+        self.nforks = 0           # branches taken both ways for lack of knowledge (none when the operands are single values and every
+                                  # construct on the way has an exact model)
         self.aggregates = []      # (func name, block, En) every ADT aggregate built
         self.agg_stacks = []      # for each aggregate: the functions on the (inlined) call stack when it was built
         self.call_stack = []
@@ -125,7 +128,7 @@ class Interp:
                     return TOP
                 continue
             if k == "field":
-                cont = v.fields if isinstance(v, En) else v
+                cont = v.fields if isinstance(v, En) else (v.captured if isinstance(v, Clo) else v)
                 if isinstance(cont, list) and e["i"] < len(cont):
                     v = cont[e["i"]]
                 else:
@@ -178,6 +181,10 @@ class Interp:
                     return FnItem(mir.norm(name))       # a function item used as a value: `.map(Number::floor)`
             return TOP
         return TOP
+
+    def _definite(self, f, b):
+        if self.nforks == 0:
+            self.definite.add((f.name, b))
 
     # ---- arithmetic
     def arith(self, op, a, b, ty, f, blk):
@@ -236,6 +243,8 @@ class Interp:
                     c += [tdiv(a.lo, y), tdiv(a.hi, y)]
                 if base == "Div":
                     r = IV(min(c), max(c))
+                elif a.lo == a.hi and b.lo == b.hi:
+                    r = IV(a.lo - tdiv(a.lo, b.lo) * b.lo)             # single values: the remainder itself (sign of the dividend)
                 else:
                     m = max(abs(b.lo), abs(b.hi)) - 1
                     r = IV(-m if a.lo < 0 else 0, m if a.hi > 0 else 0)
@@ -246,7 +255,7 @@ class Interp:
         if op.endswith("WithOverflow"):
             if isinstance(r, IV):
                 fits = r.fits(ty)
-                return [r, False if fits else B()]
+                return [r, False if fits else (True if r.lo == r.hi else B())]
             return [TOP, B()]
         return r
 
@@ -296,6 +305,8 @@ class Interp:
                             self.obligations.append((f.name, b, kind, t.get("op"), passes is True, t["span"]))
                         else:
                             self.obligations.append((f.name, b, kind, None, passes is True, t["span"]))
+                        if passes is False:
+                            self._definite(f, b)
                     b = t["target"]
                     continue
                 if k == "switch":
@@ -314,17 +325,22 @@ class Interp:
                     outs = [(val, bb) for val, bb in t["targets"]] + [(None, t["otherwise"])]
                     if f.blocks[t["otherwise"]]["term"]["k"] == "unreachable" and not f.blocks[t["otherwise"]]["stmts"]:
                         outs = outs[:-1]
+                    nfeasible = 0
                     for val, bb in outs:
                         s2 = st.fork()
                         if self._refine(f, s2, t["discr"], v, val, [x for x, _ in t["targets"]]) is False:
                             continue  # infeasible branch
+                        nfeasible += 1
                         work.append((bb, s2, dict(vis)))
+                    if nfeasible > 1:
+                        self.nforks += 1
                     break
                 if k == "call":
                     r = self._call(f, b, st, t, depth)
                     if r == "diverge":
                         break
                     if isinstance(r, tuple) and r and r[0] == "__fork__":
+                        self.nforks += 1
                         for val in r[1]:
                             s2 = st.fork()
                             self.write(s2, t["dest"], val)
@@ -467,6 +483,8 @@ class Interp:
                 r = RANGES[ty]
                 fits = r[0] <= v.lo and v.hi <= r[1]
                 self.obligations.append((f.name, b, "Cast", "%s->%s" % (rv.get("from_ty"), ty), fits, s["span"]))
+                if not fits and v.lo == v.hi:
+                    self._definite(f, b)
                 if not fits:
                     v = TOP
             self.write(st, dst, v)
@@ -511,6 +529,8 @@ class Interp:
                 # bare (unchecked) operator: in a release-like build it wraps
                 fits = isinstance(r, IV) and r.fits(rv["lty"])
                 self.obligations.append((f.name, b, "Bare", rv["op"], fits, s["span"]))
+                if isinstance(r, IV) and r.lo == r.hi and not fits:
+                    self._definite(f, b)
             self.write(st, dst, r)
             return
         if k == "unop":
@@ -520,6 +540,8 @@ class Interp:
             elif rv["op"] == "Neg" and isinstance(v, IV):
                 r = IV(-v.hi, -v.lo)
                 self.obligations.append((f.name, b, "Bare", "Neg", r.fits(rv.get("oty", "i32")), s["span"]))
+                if r.lo == r.hi and not r.fits(rv.get("oty", "i32")):
+                    self._definite(f, b)
                 self.write(st, dst, r)
             else:
                 self.write(st, dst, TOP)
@@ -579,6 +601,8 @@ class Interp:
             if isinstance(a, IV):
                 ok = a.lo > I32[0]
                 self.obligations.append((f.name, b, "Overflow", "abs", ok, t["span"]))
+                if not ok and a.lo == a.hi:
+                    self._definite(f, b)
                 lo = 0 if a.contains(0) else min(abs(a.lo), abs(a.hi))
                 return IV(lo, max(abs(a.lo), abs(a.hi)))
             return TOP
@@ -587,6 +611,8 @@ class Interp:
                 r = self.arith(opn, args[0], args[1], "i32", f, b)
                 ok = isinstance(r, IV) and r.fits("i32")
                 self.obligations.append((f.name, b, "Overflow", opn, ok, t["span"]))
+                if isinstance(r, IV) and r.lo == r.hi and not ok:
+                    self._definite(f, b)
                 return r
         if c.endswith("mem::discriminant") and len(args) == 1 and isinstance(args[0], En):
             return IV(args[0].variant)
@@ -605,6 +631,8 @@ class Interp:
                 if c == "<%s as std::ops::%s>::%s" % (ity, opn, opn.lower()):
                     r = self.arith(opn, args[0], args[1], "i64", f, b)
                     self.obligations.append((f.name, b, "Overflow", opn, isinstance(r, IV) and r.fits("i64"), t["span"]))
+                    if isinstance(r, IV) and r.lo == r.hi and not r.fits("i64"):
+                        self._definite(f, b)
                     return r
         if c.endswith("::branch"):
             v = args[0]
@@ -613,8 +641,60 @@ class Interp:
             return ("__fork__", [En(0, [TOP], "Continue"), En(1, [TOP], "Break")])
         if c.endswith("from_residual"):
             return En(1, [TOP], "Err")
-        # Result / Option combinators handed a closure or a function of the crate
         end_ = c.rsplit("::", 1)[-1]
+        # NonZero::new(n): Some(n) unless n is zero; the wrapper is the value it wraps
+        if "num::NonZero" in c and end_ == "new" and len(args) == 1 and isinstance(args[0], IV):
+            v = args[0]
+            if not v.contains(0):
+                return En(1, [v], "Some")
+            if v.lo == v.hi:
+                return En(0, [], "None")
+            nz = IV(1, v.hi) if v.lo == 0 else (IV(v.lo, -1) if v.hi == 0 else v)
+            return ("__fork__", [En(0, [], "None"), En(1, [nz], "Some")])
+        if "num::NonZero" in c and end_ == "get" and len(args) == 1 and isinstance(args[0], IV):
+            return args[0]
+        # bool::then_some / then, Option::unwrap_or_else / unwrap_or / map_or_else / map_or / ok_or_else / ok_or
+        if "<impl bool>" in c and end_ in ("then_some", "then") and len(args) == 2 and (end_ == "then_some" or isinstance(args[1], (Clo, FnItem))):
+            cond = args[0]
+
+            def taken():
+                if end_ == "then_some":
+                    return [En(1, [args[1]], "Some")]
+                r_ = self._invoke(f, b, args[1], [], depth)
+                outs_ = r_[1] if isinstance(r_, tuple) and r_ and r_[0] == "__fork__" else [r_]
+                return [En(1, [o_], "Some") for o_ in outs_ if not isinstance(o_, str)]
+            if cond is True or cond is False:
+                outs = taken() if cond else [En(0, [], "None")]
+            else:
+                outs = taken() + [En(0, [], "None")]
+            return outs[0] if len(outs) == 1 else (("__fork__", outs[:16]) if outs else "diverge")
+        if ("option::Option" in c or "result::Result" in c) and end_ in ("unwrap_or_else", "unwrap_or", "map_or_else", "map_or", "ok_or_else", "ok_or") \
+                and isinstance(args[0], En) and args[0].name in ("Some", "None", "Ok", "Err"):
+            v = args[0]
+            good = v.name in ("Some", "Ok")
+            payload = v.fields[0] if v.fields else TOP
+
+            def call_(fnv, xs):
+                if not isinstance(fnv, (Clo, FnItem)):
+                    return None
+                r_ = self._invoke(f, b, fnv, xs, depth)
+                return r_
+            r = None
+            if end_ == "unwrap_or" and len(args) == 2:
+                r = payload if good else args[1]
+            elif end_ == "unwrap_or_else" and len(args) == 2:
+                r = payload if good else call_(args[1], [] if v.name == "None" else [payload])
+            elif end_ == "map_or" and len(args) == 3:
+                r = call_(args[2], [payload]) if good else args[1]
+            elif end_ == "map_or_else" and len(args) == 3:
+                r = call_(args[2], [payload]) if good else call_(args[1], [] if v.name == "None" else [payload])
+            elif end_ == "ok_or" and len(args) == 2 and v.name in ("Some", "None"):
+                r = En(0, [payload], "Ok") if good else En(1, [args[1]], "Err")
+            elif end_ == "ok_or_else" and len(args) == 2 and v.name in ("Some", "None"):
+                r = En(0, [payload], "Ok") if good else En(1, [TOP], "Err")
+            if r is not None:
+                return r
+        # Result / Option combinators handed a closure or a function of the crate
         if end_ in ("map", "and_then") and ("result::Result" in c or "option::Option" in c) and len(args) == 2 \
                 and isinstance(args[1], (Clo, FnItem)):
             is_res = "result::Result" in c
